@@ -100,9 +100,9 @@ func newLockAnalysis(w *World) (*lockAnalysis, error) {
 			if la.mxName != "" {
 				return nil, fmt.Errorf("runner has more than one sync.RWMutex field")
 			}
-			la.mxName = f.Name()
+			la.mxName = canonField(f)
 		case "sync.WaitGroup":
-			la.wgName = f.Name()
+			la.wgName = canonField(f)
 		}
 		if m, ok := f.Type().Underlying().(*types.Map); ok {
 			if la.elemGuarded(m.Elem()) {
@@ -116,7 +116,7 @@ func newLockAnalysis(w *World) (*lockAnalysis, error) {
 	for _, T := range []*types.Named{la.runnerT, la.jobT, la.taskT} {
 		s := structOf(T)
 		for i := 0; i < s.NumFields(); i++ {
-			la.fieldsOf[T.Obj().Name()+"."+s.Field(i).Name()] = true
+			la.fieldsOf[T.Obj().Name()+"."+canonField(s.Field(i))] = true
 		}
 	}
 	la.computeMutable()
@@ -356,7 +356,7 @@ func (la *lockAnalysis) computeMutable() {
 					if _, isStruct := p.Elem().Underlying().(*types.Struct); isStruct && !la.fresh(st.Addr, nil) {
 						s := structOf(n)
 						for i := 0; i < s.NumFields(); i++ {
-							la.mutable[n.Obj().Name()+"."+s.Field(i).Name()] = true
+							la.mutable[n.Obj().Name()+"."+canonField(s.Field(i))] = true
 						}
 					}
 				}
